@@ -169,6 +169,15 @@ func (t *VariantType) PType() px.Type {
 
 var variantTypeDefault = &VariantType{types: []px.Type{}}
 
+// tupleAssignableTo answers if all elements of instances of the given tuple are assignable to o. A tuple
+// without declared types (and a size that allows elements) has elements of any type.
+func tupleAssignableTo(t *TupleType, o px.Type, g px.Guard) bool {
+	if len(t.types) == 0 && t.givenOrActualSize.max > 0 {
+		return GuardedIsAssignable(o, anyTypeDefault, g)
+	}
+	return allAssignableTo(t.types, o, g)
+}
+
 func allAssignableTo(types []px.Type, o px.Type, g px.Guard) bool {
 	for _, v := range types {
 		if !GuardedIsAssignable(o, v, g) {
